@@ -189,7 +189,7 @@ Print Assumptions C11_newkeys_window_v1_gated.
 (* the shape of the gate, of the flag's writers and of the callers of the ungated primitive, as found in
    the source by gen/c11.py (these justify the step function of the model) *)
 Theorem C11_shape_facts :
-  gate_waits = true /\ kexinit_saved_before_send = true /\ kexinit_clears_first = true /\ negotiate_clears_first = true /\
+  gate_waits = true /\ gate_releases_on_every_exit = true /\ kexinit_saved_before_send = true /\ kexinit_clears_first = true /\ negotiate_clears_first = true /\
   newkeys_sets = true /\ flag_set_only_in_newkeys = true /\ send_message_is_packetizer = true /\
   public_ungated_count = 0 /\ kex_gate_uses = 0 /\ MSG_KEXINIT = 20 /\ MSG_NEWKEYS = 21 /\
   HIGHEST_USERAUTH_MESSAGE_ID < 80 /\ MSG_GLOBAL_REQUEST = 80 /\ MSG_CHANNEL_OPEN = 90 /\
